@@ -56,6 +56,10 @@ def run(tier):
         if len(ck.samples) < 3 and src.count("Fiber.new") >= 2 and len(v["out"]) > 5:
             ck.sample({"program": p["name"], "source": src[:1200], "expected_output": v["out"][:12]})
 
+    from ..gen import feat_fiber as _ffp
+    rpr = ck.rng.fork("pendingreturn")
+    for i in range(250 if quick else 6000 * common.TS):
+        plist.append({"name": "pendingreturn/%d" % i, "steps": [("snip", _ffp.pending_return_program(rpr.fork(str(i))))], "mods": []})
     # interplay: this check's programs inside stacks of other features' constructs, and every profile's programs inside
     # this feature's constructs (vfpy/gen/feat_ctx.py); the model decides what they must print
     from ..gen import feat_ctx as _ctx
